@@ -7,12 +7,12 @@ sys.path.insert(0, os.path.join(ROOT, "lib"))
 from props import PROPS  # noqa
 
 ids = [json.loads(l)["id"] for l in open(os.path.join(ROOT, "properties.jsonl"))]
-NOT_YET = {}
+REGISTERED = set(open(os.path.join(ROOT, "lib", "registered.txt")).read().split())
 checks = []
 na = []
 for p in ids:
     P = PROPS.get(p)
-    if P and P.get("registered"):
+    if P and P.get("registered") and p in REGISTERED:
         checks.append(dict(
             property_id=p,
             quick_cmd=f"./check {p} --tier quick",
